@@ -103,14 +103,6 @@ MUTANTS = [
       "  let moving := addMoving new s.atoms.rows.length\n  let res :=",
       "  let moving := addMoving s.ctx.template s.atoms.rows.length\n  let res :=",
       ["C05"], "attempt_addition: the indices of the added rows are counted with the size of exchange_atoms, not of to_add_atoms"),
-    M("machine-compexch-deletion-keeps-member-preselection", "Machine", "QModel/Machine.lean",
-      "    let s := clearExch s0 r\n",
-      "    let s := s0\n",
-      ["C03"], "composite deletion: a one-shot pre-selection (to_delete_label / to_add_atoms) placed on a member is not dropped (the code before the repair)"),
-    M("machine-compexch-insertion-keeps-to-delete-label", "Machine", "QModel/Machine.lean",
-      "    compExchAddLoop rs ok1 (clearExch s2 r)",
-      "    compExchAddLoop rs ok1 (s2.setObj r { s2.obj r with toAdd := none })",
-      ["C03"], "composite insertion: only to_add_atoms of a member is reset, a pre-selected to_delete_label stays (the code before the repair)"),
     M("machineio-addtwice-single-template", "MachineIO", "QModel/MachineIO.lean",
       "{ s.obj r with toAdd := some (s.ctx.template ++ s.ctx.template) }) ps",
       "{ s.obj r with toAdd := some s.ctx.template }) ps",
@@ -327,9 +319,17 @@ MUTANTS = [
       "let forces' : Arr n α := Tab.get (getForces c F positions)",
       ["C14"], "forces for the second half-kick evaluated at the OLD positions"),
     M("verlet-veto-keeps-momenta", "Verlet", "QModel/Verlet.lean",
-      "{ c2 with q := old.q, p := old.p, calcAt := c2.lastResults }",
-      "{ c2 with q := old.q, calcAt := c2.lastResults }",
+      "{ c2 with q := old.q, p := old.p, lastKE := reference, calcAt := c2.lastResults }",
+      "{ c2 with q := old.q, lastKE := reference, calcAt := c2.lastResults }",
       ["C14"], "vetoed Hamiltonian attempt: positions restored, momenta not (a restored field forgotten)"),
+    M("verlet-veto-keeps-abandoned-kinetic-energy", "Verlet", "QModel/Verlet.lean",
+      "{ c2 with q := old.q, p := old.p, lastKE := reference, calcAt := c2.lastResults }",
+      "{ c2 with q := old.q, p := old.p, calcAt := c2.lastResults }",
+      ["C14"], "vetoed Hamiltonian attempt: the kinetic energy of the abandoned draw stays as reference"),
+    M("verlet-reference-not-carried", "Verlet", "QModel/Verlet.lean",
+      "{ c with p := p, lastKE := (reference - start) + ekin g.m p }",
+      "{ c with p := p, lastKE := ekin g.m p }",
+      ["C14"], "a Hamiltonian member overwrites the kinetic reference instead of replacing its own share (ham * 2)"),
     M("vecfn-sumall-skips-z", "VecFn", "QModel/VecFn.lean",
       "def sumAll (a : Arr n α) : α := sumFin (fun i => sumFin (fun k => a i k))",
       "def sumAll (a : Arr n α) : α := sumFin (fun i => a i 0 + a i 1)",
